@@ -174,10 +174,10 @@ def statusOf : Resp → Nat | .cl => 200 | .stream => 200 | .s204 => 204 | .s304
 `set_close_callback(None)`, `write_headers`, [`write`], `finish` → `_finish_request` -/
 def appRespond (r : Request) (st : St) : St :=
   let st := (St.emit { st with responded := true, c := { st.c with cc := false } } (.respond st.cur))
+  let (disc1, co) := C03.writeHeaders r.req r.sc.resp st.c.disc
   let st := if st.s.closed then st
-            else st.emit (.resp (statusOf r.sc.resp) (C03.connOut r.req st.c.disc)
-                                (C03.chunking r.req r.sc.resp) (C03.respHasCL r.sc.resp))
-  let disc := C03.discAfterFinish st.c.disc st.c.rf
+            else st.emit (.resp (statusOf r.sc.resp) co (C03.chunking r.req r.sc.resp) (C03.respHasCL r.sc.resp))
+  let disc := C03.discAfterFinish disc1 st.c.rf
   let c : Conn := { st.c with wf := true, disc := disc, cc := false, fd := true }
   let s := { st.s with hasCb := false }
   { st with c := c, s := if disc then s.close else s }
